@@ -702,6 +702,21 @@ pub enum Fault {
     DropReply,
     /// the request is executed twice, the caller sees the second reply
     Duplicate,
+    /// the caller sees a broken connection now; the request reaches the target 20 virtual ms later
+    /// (reordered behind the calls the caller makes in the meantime)
+    DelayShort,
+    /// the same with 2 virtual seconds: the request arrives rounds later (stale replay)
+    DelayLong,
+}
+
+impl Fault {
+    pub fn delay(&self) -> Option<Duration> {
+        match self {
+            Fault::DelayShort => Some(Duration::from_millis(20)),
+            Fault::DelayLong => Some(Duration::from_secs(2)),
+            _ => None,
+        }
+    }
 }
 
 fn fnv(a: &str, b: &str) -> u64 {
@@ -970,6 +985,14 @@ async fn conn_task(net: Arc<Net>, id: u64, addr: String, target: Target, mut req
                     Some(Fault::Duplicate) => {
                         s.exec(id, &c);
                     }
+                    Some(f @ (Fault::DelayShort | Fault::DelayLong)) => {
+                        let (s2, c2) = (s.clone(), c.clone());
+                        tokio::spawn(async move {
+                            tokio::time::sleep(f.delay().unwrap_or_default()).await;
+                            s2.exec(id, &c2);
+                        });
+                        return;
+                    }
                     None => {}
                 }
                 let r = s.exec(id, &c);
@@ -1002,6 +1025,20 @@ async fn conn_task(net: Arc<Net>, id: u64, addr: String, target: Target, mut req
                                 }
                                 Some(Fault::Duplicate) => {
                                     let _ = session_cmd(&session, &c).await;
+                                }
+                                Some(f @ (Fault::DelayShort | Fault::DelayLong)) => {
+                                    // still in flight when the caller gives up: it lands later, on a connection of its own
+                                    let (p2, c2, net2, addr2) = (p.clone(), c.clone(), net.clone(), addr.clone());
+                                    tokio::spawn(async move {
+                                        tokio::time::sleep(f.delay().unwrap_or_default()).await;
+                                        if p2.dead.load(Ordering::SeqCst) || net2.gate.down.lock().contains(&addr2) {
+                                            return;
+                                        }
+                                        net2.gate.mark(&format!("DELAYED-DELIVERY:{}", kind_of(&c2)));
+                                        let session = p2.new_session();
+                                        let _ = session_cmd(&session, &c2).await;
+                                    });
+                                    return;
                                 }
                                 None => {}
                             }
